@@ -141,7 +141,7 @@ def wrapStable (k : WrapKind) (ct : Str) : Bool :=
       (if u.style = 0 then msg ≠ [] else if u.style = 1 then msg ≠ colonSp ++ ct else true)
   | .fmtWrapError msg => msg ≠ colonSp ++ ct
   -- WithContextTags never attaches an empty tag set, and a logtags buffer has distinct keys
-  | .withContext tags red => tags ≠ [] && dedupTags tags = tags && red ≠ some []
+  | .withContext tags _ red => tags ≠ [] && dedupTags tags = tags && red ≠ some []
   -- a captured stack is never empty (runtime.Callers returns at least the caller)
   | .withStack st => st ≠ []
   | .pkgWithStack st => st ≠ []
